@@ -13,7 +13,8 @@ open GmQuic.RcvdJournal GmQuic.Pn
 `first_range.saturating_sub(1)`, the fold's initial `(1, 0, false)` and restart `(1, 0, _)`, the `- 1` corrections of gap and
 ack, the `+ 1` steps, the strict test of the last range) are the ones the source has NOW (`Gen/AckConsts.lean`, regenerated
 by `xlate/gen_ackconsts.py` on every run; the boundaries of `range_count_size_increment` are not pinned but used by the
-model directly, so `ack_fits` is re-proved against them).  `ackLastSpare` may be 1 (`capacity > size`) or 0 (`>=`). -/
+model directly, so `ack_fits` is re-proved against them).  `ackLastSpare` (0 for `capacity >= size`, 1 for the former strict
+`capacity > size`) is USED by the model (`genFrame`), and `ack_complete_when_room_tight` needs it to be 0. -/
 theorem gen_ack_literals_match_source :
     GmQuic.Gen.ackMinLenType = 1 ∧ GmQuic.Gen.ackMinLenCount = 1 ∧ GmQuic.Gen.ackFirstSub = 1 ∧
     GmQuic.Gen.ackFoldGap0 = 1 ∧ GmQuic.Gen.ackFoldAck0 = 0 ∧ GmQuic.Gen.ackNewGap = 1 ∧ GmQuic.Gen.ackNewAck = 0 ∧
@@ -152,12 +153,13 @@ example : (run [.rcv 0 true 1, .rcv 2 true 1]).has 2 = true ∧ 47 + 21 * (2 + 1
     (genAck (run [.rcv 0 true 1, .rcv 2 true 1]) 1 2 0 110).2 = .ok ⟨2, 0, 0, [(0, 0)]⟩ := by decide
 
 /-- **ack_complete_when_room** (tight): `fullSize` (defined from the journal state alone, independent of the capacity) is
-the encoded size of the complete frame, and every capacity strictly above it yields that complete frame: every tracked
-received number `≤ largest` is enumerated and `encoding_size() = fullSize`.  At capacity `= fullSize` the code leaves the
-last range out (`ack_last_range_needs_spare_byte`, known finding). -/
+the encoded size of the complete frame, and every capacity `≥ fullSize` yields that complete frame: every tracked
+received number `≤ largest` is enumerated and `encoding_size() = fullSize`.  Together with `ack_fits` this is exact: a
+capacity below `fullSize` cannot hold the complete frame.  (Before fix-C10-ack-exact-fit the last range was pushed only if
+`capacity > size`, so the theorem needed `fullSize < cap`; the excluded behaviour is kept as an `example` below.) -/
 theorem ack_complete_when_room_tight (ops : List Op) (pn largest delay cap : Nat) (f : AckFrame)
     (hl : (run ops).has largest = true)
-    (hroom : fullSize largest delay (bsOf (run ops) largest) < cap)
+    (hroom : fullSize largest delay (bsOf (run ops) largest) ≤ cap)
     (h : (genAck (run ops) pn largest delay cap).2 = .ok f) :
     (∃ out, f.iter = some out ∧ ∀ p, p ≤ largest → (run ops).has p = true → covers out p = true) ∧
     f.size = fullSize largest delay (bsOf (run ops) largest) := by
@@ -191,16 +193,28 @@ theorem ack_complete_when_room_tight (ops : List Op) (pn largest delay cap : Nat
   simp only [e, hhp, Bool.and_true, decide_eq_true_eq]
   omega
 
-/-- non-vacuity: received {0,2}: the complete frame has 7 bytes; capacity 8 gives it, capacity 7 does not -/
+/-- non-vacuity: received {0,2}: the complete frame has 7 bytes; capacity 7 (exactly) gives it -/
 example : fullSize 2 0 (bsOf (run [.rcv 0 true 1, .rcv 2 true 1]) 2) = 7 ∧
-    (genAck (run [.rcv 0 true 1, .rcv 2 true 1]) 1 2 0 8).2 = .ok ⟨2, 0, 0, [(0, 0)]⟩ := by decide
+    (genAck (run [.rcv 0 true 1, .rcv 2 true 1]) 1 2 0 7).2 = .ok ⟨2, 0, 0, [(0, 0)]⟩ := by decide
 
-/-- The last range is pushed only if `capacity > size` (strictly): with capacity exactly the size of the complete
-frame the code leaves the last range out although it would fit (conservative off-by-one, replayed in `C10r` case 1). -/
-theorem ack_last_range_needs_spare_byte :
+/-- **ack_complete_iff_room**: the frame enumerates every tracked received number `≤ largest` exactly when the capacity
+offered is at least the size of the complete frame (`⇐` is `ack_complete_when_room_tight`; `⇒`: a complete frame has
+`fullSize` bytes and `ack_fits`).  Stated on sizes: an `Ok` frame has `fullSize` bytes iff `fullSize ≤ cap`. -/
+theorem ack_exact_fit (ops : List Op) (pn largest delay cap : Nat) (f : AckFrame)
+    (hl : (run ops).has largest = true)
+    (h : (genAck (run ops) pn largest delay cap).2 = .ok f) :
+    f.size = fullSize largest delay (bsOf (run ops) largest) ↔ fullSize largest delay (bsOf (run ops) largest) ≤ cap := by
+  constructor
+  · intro e; rw [← e]; exact ack_fits ops pn largest delay cap f h
+  · intro hroom; exact (ack_complete_when_room_tight ops pn largest delay cap f hl hroom h).2
+
+/-- The former off-by-one (known finding `ack_incomplete_exact_fit`, fixed by fix-C10-ack-exact-fit): the last range was
+pushed only if `capacity > size`, so capacity 7 = size of the complete frame `{2,0}` yielded `⟨2,0,0,[]⟩` (pn 0 left out).
+The fixed code gives the complete frame at 7 and cuts only below (replayed in `C10r` case 1). -/
+theorem ack_last_range_exact_fit :
     let s := run [.rcv 0 true 100, .rcv 2 true 100]
-    (genAck s 1 2 0 7).2 = .ok ⟨2, 0, 0, []⟩ ∧ (⟨2, 0, 0, [(0, 0)]⟩ : AckFrame).size = 7 ∧
-    (genAck s 1 2 0 8).2 = .ok ⟨2, 0, 0, [(0, 0)]⟩ := by decide
+    (genAck s 1 2 0 7).2 = .ok ⟨2, 0, 0, [(0, 0)]⟩ ∧ (⟨2, 0, 0, [(0, 0)]⟩ : AckFrame).size = 7 ∧
+    (genAck s 1 2 0 6).2 = .ok ⟨2, 0, 0, []⟩ := by decide
 
 /-- **pn_accepted_once**: once `on_rcvd_pn(pn)` was called (pn within the varint range, so that it does not panic),
 `decode_pn` never answers `Ok(pn)` again, whatever happens in between — it answers `TooOld` or `Duplicate` or some
